@@ -10,7 +10,10 @@
 //!     `ll [token types]` plus the reply reconstructed from parol's own `trace!` records of the run.
 //! Child: per input, parse AND DROP in a thread with an 8 MiB stack (main-thread default) and in one with
 //! 16 MiB (language server); then (flag `T`) once more with the trace logger on.
-//! `hx parse --one FILE [--stack MiB]` runs a single input in-process (replay of a crash).
+//! `hx parse --one FILE [--stack MiB | --stack-kib KiB] [--clone 1] [--measure 1]` runs a single input
+//! in-process (replay of a crash; bisection / direct measurement of the stack needed).
+//! List flags: `T` trace pass, `2` extra pass with a 2 MiB stack (Rust's default for spawned threads),
+//! `M` stack high-water-mark measurement (parse, +clone, +drop), `X`/`O` crash-detection self-tests.
 //! `--replay FILE` is accepted as a synonym of `--list FILE` (requests of this domain are derived from
 //! input files, so a replay is a list of files: `<flags> <label> <path>` per line).
 use crate::rng::Rng;
@@ -73,12 +76,26 @@ fn classify(text: &str, r: &Result<Parser, ParserError>) -> String {
 fn run_in_thread(text: &str, stack: usize, trace: bool) -> (String, Option<TraceData>) {
     let text = text.to_string();
     let h = std::thread::Builder::new().stack_size(stack).spawn(move || {
+        // glibc recycles the stacks of finished threads for later threads that ask for a smaller one (up to
+        // 4x smaller): a "2 MiB" thread could silently run on an old 8 MiB stack. The children are started
+        // with the stack cache disabled (see `run_worker`); verify the size really obtained anyway.
+        let anchor = 0u8;
+        if let Some((lo, hi)) = mapping_of(std::hint::black_box(&anchor) as *const u8 as usize) {
+            if hi - lo > stack + 512 * 1024 {
+                return (format!("stack-recycled:{}", hi - lo), None);
+            }
+        }
         if trace {
             trace_begin();
         }
         let r = std::panic::catch_unwind(|| {
             let r = Parser::parse(&text, &"c10.veryl");
             let c = classify(&text, &r);
+            if WITH_CLONE.load(Ordering::Relaxed) {
+                if let Ok(p) = &r {
+                    drop(p.veryl.clone());
+                }
+            }
             drop(r); // the tree (or the error) is dropped inside the measured thread
             c
         });
@@ -102,6 +119,94 @@ fn run_in_thread(text: &str, stack: usize, trace: bool) -> (String, Option<Trace
 }
 
 // ------------------------------------------------------------------------------------------------
+// stack high-water mark (flag `M`): paint the unused part of a big thread stack, run, find the
+// deepest byte that was written
+// ------------------------------------------------------------------------------------------------
+
+const PAINT: u64 = 0xA5A5_5A5A_A5A5_5A5A;
+const MEASURE_STACK: usize = 96 * MIB;
+
+/// [lo, hi) of the mapping that contains `addr` (the thread's stack without its guard page).
+fn mapping_of(addr: usize) -> Option<(usize, usize)> {
+    let maps = std::fs::read_to_string("/proc/self/maps").ok()?;
+    for l in maps.lines() {
+        let range = l.split(' ').next()?;
+        let (a, b) = range.split_once('-')?;
+        let (a, b) = (usize::from_str_radix(a, 16).ok()?, usize::from_str_radix(b, 16).ok()?);
+        if a <= addr && addr < b {
+            return Some((a, b));
+        }
+    }
+    None
+}
+
+#[inline(never)]
+fn paint(lo: usize, hi: usize) {
+    let mut p = lo;
+    while p + 8 <= hi {
+        unsafe { std::ptr::write_volatile(p as *mut u64, PAINT) };
+        p += 8;
+    }
+}
+
+/// Lowest address in [lo, hi) that no longer holds the paint.
+#[inline(never)]
+fn lowest_dirty(lo: usize, hi: usize) -> usize {
+    let mut p = lo;
+    while p + 8 <= hi {
+        if unsafe { std::ptr::read_volatile(p as *const u64) } != PAINT {
+            return p;
+        }
+        p += 8;
+    }
+    hi
+}
+
+/// Bytes of stack used below the entry frame of the measuring thread by the parse, by cloning the tree,
+/// and by dropping tree and clone (separate high-water marks), plus the parse result class.
+fn measure(text: &str) -> String {
+    let text = text.to_string();
+    let h = std::thread::Builder::new().stack_size(MEASURE_STACK).spawn(move || {
+        let anchor = 0u64;
+        let top = std::hint::black_box(&anchor) as *const u64 as usize;
+        let Some((lo, _)) = mapping_of(top) else { return "no-mapping".to_string() };
+        let lo = (lo + 7) & !7;
+        let limit = top - 64 * 1024; // the painter's own frames live above this
+        paint(lo, limit);
+        // high-water mark since the last (re)paint; then repaint what was dirtied
+        let used = |_: ()| {
+            let d = lowest_dirty(lo, limit);
+            paint(d, limit);
+            top - d
+        };
+        let r = std::panic::catch_unwind(|| {
+            let r = Parser::parse(&text, &"c10.veryl");
+            let u_parse = used(());
+            let cls = classify(&text, &r).split(':').next().unwrap_or("").to_string();
+            let (u_clone, u_drop) = match r {
+                Ok(p) => {
+                    let c = p.veryl.clone();
+                    let u_clone = used(());
+                    drop(c);
+                    drop(p);
+                    (u_clone, used(()))
+                }
+                Err(e) => {
+                    drop(e);
+                    (0, used(()))
+                }
+            };
+            format!("{cls} {u_parse} {u_clone} {u_drop}")
+        });
+        r.unwrap_or_else(|_| "panic 0 0 0".to_string())
+    });
+    match h {
+        Ok(h) => h.join().unwrap_or_else(|_| "panic 0 0 0".to_string()),
+        Err(_) => "spawn-failed 0 0 0".to_string(),
+    }
+}
+
+// ------------------------------------------------------------------------------------------------
 // trace capture (parol_runtime `trace!` records)
 // ------------------------------------------------------------------------------------------------
 
@@ -117,6 +222,8 @@ pub struct TraceData {
 }
 
 static TRACE_ON: AtomicBool = AtomicBool::new(false);
+/// `hx parse --one FILE --clone 1`: also clone the tree (and drop the clone) in the measured thread.
+static WITH_CLONE: AtomicBool = AtomicBool::new(false);
 static TRACE: Mutex<Option<TraceData>> = Mutex::new(None);
 
 struct Capture;
@@ -275,7 +382,19 @@ fn child(list: &str, from: usize, stride: usize, offset: usize) -> i32 {
             let h = std::thread::Builder::new().stack_size(8 * MIB).spawn(|| overflow(1)).unwrap();
             let _ = h.join();
         }
-        for mib in [8usize, 16] {
+        // measurement first (96 MiB stack): it must be available even if a smaller stack overflows below
+        if e.flags.contains('M') {
+            let m = measure(&text);
+            writeln!(o, "S {i} {m}").unwrap();
+            o.flush().unwrap();
+        }
+        // ascending sizes (a smaller request is never served from a bigger cached stack of this input)
+        let mut sizes: Vec<usize> = vec![8, 16];
+        if e.flags.contains('2') {
+            // Rust's default stack of a spawned thread: what a library caller / worker thread gets
+            sizes.insert(0, 2);
+        }
+        for mib in sizes {
             let (r, _) = run_in_thread(&text, mib * MIB, false);
             writeln!(o, "R {i} {mib} {r}").unwrap();
             o.flush().unwrap();
@@ -296,9 +415,21 @@ fn child(list: &str, from: usize, stride: usize, offset: usize) -> i32 {
 fn one(path: &str, opts: &Opts) -> i32 {
     std::panic::set_hook(Box::new(|_| {}));
     let text = read_input(path);
+    WITH_CLONE.store(opts.get("clone").is_some(), Ordering::SeqCst);
+    if let Some(kib) = opts.get("stack-kib") {
+        // exact thread stack size in KiB (bisection of the stack actually needed)
+        let kib: usize = kib.parse().unwrap_or(2048);
+        let (r, _) = run_in_thread(&text, kib * 1024, false);
+        println!("{kib}KiB {r}");
+        return 0;
+    }
+    if opts.get("measure").is_some() {
+        println!("measure {}", measure(&text));
+        return 0;
+    }
     let stacks: Vec<usize> = match opts.get("stack") {
         Some(s) => vec![s.parse().unwrap_or(8)],
-        None => vec![8, 16],
+        None => vec![2, 8, 16],
     };
     for mib in stacks {
         let (r, _) = run_in_thread(&text, mib * MIB, false);
@@ -479,7 +610,9 @@ fn signal_name(st: &std::process::ExitStatus) -> String {
 struct Res {
     ms: u64,
     ms_all: u64,
-    r: [Option<String>; 2],
+    /// results of the 8 MiB, 16 MiB and (flag `2`) 2 MiB passes
+    r: [Option<String>; 3],
+    measure: Option<String>,
     ll: Option<(String, String)>,
     op: Option<String>,
 }
@@ -525,12 +658,15 @@ fn run_children(list: &str, n: usize, timeout: Duration, jobs: usize, log: &mut 
 
 fn run_worker(list: &str, n: usize, timeout: Duration, stride: usize, offset: usize, log: &mut Log) -> Vec<Res> {
     let exe = std::env::current_exe().unwrap();
-    let mut res: Vec<Res> = (0..n).map(|_| Res { ms: 0, ms_all: 0, r: [None, None], ll: None, op: None }).collect();
+    let entries = read_list(list);
+    let mut res: Vec<Res> = (0..n).map(|_| Res { ms: 0, ms_all: 0, r: [None, None, None], measure: None, ll: None, op: None }).collect();
     let mut from = 0usize;
     while from < n {
         let mut ch = Command::new(&exe)
             .args(["parse", "--child", list, "--from", &from.to_string()])
             .args(["--stride", &stride.to_string(), "--offset", &offset.to_string()])
+            // exact thread stack sizes: no recycling of bigger stacks of finished threads
+            .env("GLIBC_TUNABLES", "glibc.pthread.stack_cache_size=0")
             .stdin(Stdio::null())
             .stdout(Stdio::piped())
             .stderr(Stdio::null())
@@ -573,8 +709,13 @@ fn run_worker(list: &str, n: usize, timeout: Duration, stride: usize, offset: us
                             let mut p = rest.splitn(2, ' ');
                             let mib = p.next().unwrap_or("");
                             let r = p.next().unwrap_or("").to_string();
-                            res[i].r[if mib == "8" { 0 } else { 1 }] = Some(r);
+                            res[i].r[match mib {
+                                "8" => 0,
+                                "16" => 1,
+                                _ => 2,
+                            }] = Some(r);
                         }
+                        "S" => res[i].measure = Some(rest.to_string()),
                         "T" => res[i].op = Some(rest.to_string()),
                         "I" => {
                             if let Some(op) = res[i].op.take() {
@@ -604,14 +745,24 @@ fn run_worker(list: &str, n: usize, timeout: Duration, stride: usize, offset: us
             // the child died (or hung) while working on input i
             let why = if timed_out { "timeout".to_string() } else { format!("crash:{}", signal_name(&st)) };
             log.count(if timed_out { "timeouts" } else { "crashes" });
-            for slot in res[i].r.iter_mut() {
-                if slot.is_none() {
-                    *slot = Some(why.clone());
-                    break; // later stages were never started: leave them as "not-run"
+            // stages in the order the child runs them; the first one without a result is where it died
+            let flags = entries.get(i).map(|e| e.flags.as_str()).unwrap_or("");
+            let mut placed = false;
+            if flags.contains('M') && res[i].measure.is_none() {
+                res[i].measure = Some(format!("{why} 0 0 0"));
+                placed = true;
+            }
+            for k in [2usize, 0, 1] {
+                if placed || (k == 2 && !flags.contains('2')) {
+                    continue;
+                }
+                if res[i].r[k].is_none() {
+                    res[i].r[k] = Some(why.clone());
+                    placed = true; // later stages were never started: they stay "not-run"
                 }
             }
-            if res[i].r.iter().all(|x| x.is_some()) && res[i].ll.is_none() && !timed_out {
-                // died in the trace pass (64 MiB): report it on the 16 MiB slot's side channel
+            if !placed && res[i].ll.is_none() && !timed_out {
+                // died in the trace pass (64 MiB)
                 res[i].ll = Some(("ll []".to_string(), why));
             }
             from = i + 1;
@@ -677,6 +828,7 @@ pub fn main(opts: &Opts) -> i32 {
     let res = run_children(&list_path.to_string_lossy(), entries.len(), timeout, opts.num("jobs", 4) as usize, &mut log);
 
     let mut results = std::io::BufWriter::new(std::fs::File::create(out.join("results.txt")).unwrap());
+    let mut measures = std::io::BufWriter::new(std::fs::File::create(out.join("measure.txt")).unwrap());
     for (e, r) in entries.iter().zip(res.iter()) {
         log.count("inputs");
         log.count(&format!("inputs.{}", e.label.split(':').next().unwrap_or("")));
@@ -684,12 +836,21 @@ pub fn main(opts: &Opts) -> i32 {
         log.add(&format!("trace_ms.{}", e.label.split(':').next().unwrap_or("")), r.ms_all.saturating_sub(r.ms));
         let slowest = log.stats.entry("plain_ms.max".to_string()).or_insert(0);
         *slowest = (*slowest).max(r.ms);
-        for (k, mib) in [8, 16].iter().enumerate() {
+        for (k, mib) in [(2usize, 2), (0, 8), (1, 16)] {
+            if k == 2 && !e.flags.contains('2') {
+                continue;
+            }
             let v = r.r[k].clone().unwrap_or_else(|| "not-run".to_string());
             let class: String = v.split(':').take(2).collect::<Vec<_>>().join(":");
             let class = if v.starts_with("syntax:") { "syntax".to_string() } else { class };
             log.count(&format!("result.{class}"));
             writeln!(results, "{} {} {} {}", e.label, e.path, mib, v).unwrap();
+        }
+        if e.flags.contains('M') {
+            // `<label> <path> <class> <parse> <clone> <drop>` (separate stack high-water marks, bytes)
+            let m = r.measure.clone().unwrap_or_else(|| "not-run 0 0 0".to_string());
+            writeln!(measures, "{} {} {}", e.label, e.path, m).unwrap();
+            log.count("measured");
         }
         if let Some((op, reply)) = &r.ll {
             log.count("sequences");
@@ -705,6 +866,7 @@ pub fn main(opts: &Opts) -> i32 {
         }
     }
     drop(results);
+    drop(measures);
     log.write(&out);
     0
 }
